@@ -24,6 +24,11 @@ func senToken(t *rapid.T) string {
 		}
 		return b.String()
 	}
+	if sim.Intn(t, 10, "unitoken") == 9 {
+		// letters beyond ASCII (sen.md: U+0080 and up), among them lead bytes 0xEF (U+F000..U+FFFF; not 0xEF 0xBB,
+		// which the []byte entry points take for a damaged BOM - pinned by the repo's tests)
+		return []string{"é", "été", "日本", "ａbc", "ａ", "\uf8ffx", "ｘ1", "x日", "üb-c", "\uffee", "ａｂｃｄ"}[sim.Intn(t, 11, "uni")]
+	}
 	if sim.Bool(t, "word") {
 		return senWords[sim.Intn(t, len(senWords), "w")]
 	}
